@@ -109,7 +109,9 @@ def stepColour (set : Bool) (colors : Int) (cache pen : Option Colour) : Option 
   else if cache.isSome && equivColour cache pen then (cache, none)
   else if getColour pen ≥ colors then
     let c : Colour := { idx := convertColour (getColour pen) colors, rgb := none }
-    (some c, some c)
+    -- "compare what will be stored, not what was asked for"
+    if cache.isSome && getColour cache == c.idx && !hasRgb cache then (cache, none)
+    else (some c, some c)
   else (some (copyColour pen), some (copyColour pen))
 
 /-- `tickit_term_setpen` / `tickit_term_chpen` up to the call of the driver: the new cached pen. -/
@@ -167,12 +169,15 @@ def boolComps (attr : Nat) (o : Option Bool) : List Comp :=
   | none => []
   | some v => [[if v then sgrOn attr else sgrOff attr]]
 
-def underComps (o : Option Int) : List Comp :=
+def underComps (colon : Bool) (o : Option Int) : List Comp :=
   match o with
   | none => []
   | some v =>
     if v = 0 then [[sgrOff 4]]
     else if v = 1 then [[sgrOn 4]]
+    else if !colon then
+      -- without `:` sub-parameters: SGR 21 for double, a plain single underline for every other style
+      [[if v = Tickit.Gen.Sgr.underDouble then 21 else sgrOn 4]]
     else [[sgrOn 4, v.toNat]]
 
 def altfontComps (o : Option Int) : List Comp :=
@@ -191,7 +196,7 @@ def sizeposComps (o : Option Int) : List Comp :=
 
 /-- The loop of `chpen` over the attributes of `delta`, in the order of `TickitPenAttr`. -/
 def comps (caps : Caps) (d : Pen) : List Comp :=
-  colourComps 1 caps.rgb8 d.fg ++ colourComps 2 caps.rgb8 d.bg ++ boolComps 3 d.bold ++ underComps d.under ++
+  colourComps 1 caps.rgb8 d.fg ++ colourComps 2 caps.rgb8 d.bg ++ boolComps 3 d.bold ++ underComps caps.colon d.under ++
   boolComps 5 d.italic ++ boolComps 6 d.reverse ++ boolComps 7 d.strike ++ altfontComps d.altfont ++
   boolComps 9 d.blink ++ sizeposComps d.sizepos
 
